@@ -523,3 +523,110 @@ func c20SortedStrings(l []string) []string {
 }
 
 func c20Join(l []string) string { return strings.Join(l, ",") }
+
+// ---------------------------------------------------------------------------------------------
+// configuration messages sent by the governance authority for an id that is not a market yet
+
+type c20PreOp struct {
+	Kind string // orders / usersettle / commitments / close / interm / fees / attrs
+	V    bool
+	D    string
+	Fee  c20FeeMsg
+	Attr c20AttrMsg
+}
+
+func (p c20PreOp) coq() string {
+	switch p.Kind {
+	case "orders":
+		return "PreOrders " + coqBool(p.V)
+	case "usersettle":
+		return "PreUserSettle " + coqBool(p.V)
+	case "commitments":
+		return "PreCommitments " + coqBool(p.V)
+	case "close":
+		return "PreClose"
+	case "interm":
+		return "PreInterm " + coqStr(p.D)
+	case "fees":
+		return "PreFees " + p.Fee.coq()
+	default:
+		return "PreAttrs " + p.Attr.coq()
+	}
+}
+
+func (p c20PreOp) msg(authority string, id uint32) sdk.Msg {
+	switch p.Kind {
+	case "orders":
+		return &exchange.MsgMarketUpdateAcceptingOrdersRequest{Admin: authority, MarketId: id, AcceptingOrders: p.V}
+	case "usersettle":
+		return &exchange.MsgMarketUpdateUserSettleRequest{Admin: authority, MarketId: id, AllowUserSettlement: p.V}
+	case "commitments":
+		return &exchange.MsgMarketUpdateAcceptingCommitmentsRequest{Admin: authority, MarketId: id, AcceptingCommitments: p.V}
+	case "close":
+		return &exchange.MsgGovCloseMarketRequest{Authority: authority, MarketId: id}
+	case "interm":
+		return &exchange.MsgMarketUpdateIntermediaryDenomRequest{Admin: authority, MarketId: id, IntermediaryDenom: p.D}
+	case "fees":
+		return p.Fee.sdk(authority, id)
+	default:
+		return p.Attr.sdk(authority, authority, id)
+	}
+}
+
+func (p c20PreOp) desc() map[string]any {
+	d := map[string]any{"op": p.Kind}
+	switch p.Kind {
+	case "orders", "usersettle", "commitments":
+		d["value"] = p.V
+	case "interm":
+		d["denom"] = p.D
+	case "fees":
+		d["fees"] = p.Fee.desc()
+	case "attrs":
+		d["attrs"] = p.Attr.desc()
+	}
+	return d
+}
+
+// c20GenPreOps: 1-5 operations, biased towards leaving the OPPOSITE of what the market will be
+// created with (a left-over entry only matters when the creation request has the default value).
+func c20GenPreOps(r *rand.Rand, m c20Market) []c20PreOp {
+	var ops []c20PreOp
+	if m.AccOrders && r.Intn(4) != 0 {
+		if r.Intn(2) == 0 {
+			ops = append(ops, c20PreOp{Kind: "close"})
+		} else {
+			ops = append(ops, c20PreOp{Kind: "orders", V: false})
+		}
+	}
+	if !m.UserSettle && r.Intn(4) != 0 || r.Intn(4) == 0 {
+		ops = append(ops, c20PreOp{Kind: "usersettle", V: true})
+	}
+	if !m.AccCommit && r.Intn(4) != 0 || r.Intn(4) == 0 {
+		ops = append(ops, c20PreOp{Kind: "commitments", V: true})
+	}
+	cur := c20Market{}
+	n := r.Intn(3)
+	for i := 0; i < n; i++ {
+		switch r.Intn(6) {
+		case 0:
+			ops = append(ops, c20PreOp{Kind: "fees", Fee: c20GenFeeMsg(r, cur, r.Intn(5) != 0)})
+		case 1:
+			am := c20GenAttrMsg(r, cur, r.Intn(4) != 0)
+			if !am.Auth { // the authority passes every permission check
+				am.Auth, am.Shape = true, "valid"
+			}
+			ops = append(ops, c20PreOp{Kind: "attrs", Attr: am})
+		case 2:
+			ops = append(ops, c20PreOp{Kind: "interm", D: []string{"interm", "", c20ChainFeeDenom}[r.Intn(3)]})
+		case 3:
+			ops = append(ops, c20PreOp{Kind: []string{"orders", "usersettle", "commitments"}[r.Intn(3)], V: r.Intn(2) == 0})
+		case 4:
+			ops = append(ops, c20PreOp{Kind: "close"})
+		default: // bips left behind
+			ops = append(ops, c20PreOp{Kind: "fees", Fee: c20FeeMsg{SetBips: int64(1 + r.Intn(500)), Shape: "valid"}})
+		}
+	}
+	r.Shuffle(len(ops), func(i, j int) { ops[i], ops[j] = ops[j], ops[i] })
+	return ops
+}
